@@ -98,9 +98,9 @@ type ShapeCfg struct {
 	GroupChance  [2]int // num, den
 	CacheChance  [2]int
 	Caps         []int
-	FallbackOpts bool // may set NotFound / NotAllowed handlers, HandleMethodNotAllowed, fallback route
-	LongChains   bool // may build chains of 30..62 handlers
-	NoRootGroups bool // never use "/" or "" as a group prefix (request paths stay in normal form)
+	FallbackOpts bool                                        // may set NotFound / NotAllowed handlers, HandleMethodNotAllowed, fallback route
+	LongChains   bool                                        // may build chains of 30..62 handlers
+	NoRootGroups bool                                        // never use "/" or "" as a group prefix (request paths stay in normal form)
 	Scripts      func(g *Gen, id string, kind byte) []Action // nil: default scripts
 }
 
